@@ -3,7 +3,7 @@
 //! valid configuration, and a counting clock that jumps past every deadline at its n-th reading
 //! for every n; oracle = truth-table probability (reference/lineage_tt.rs).
 use crate::infra::{guarded, Ctx, PropDef, ShardOut};
-use crate::reference::lineage_tt::{world_probabilities, Atom, Fm, NRule, SeedModel};
+use crate::reference::lineage_tt::{top_stratum_negation_only, world_probabilities, Atom, Fm, NRule, SeedModel};
 use datalog::reasoning::Reasoner;
 use serde_json::{json, Value};
 use shared::hybrid::{
@@ -21,7 +21,7 @@ use std::time::{Duration, Instant};
 pub const DEF: PropDef = PropDef {
     id: "C08",
     level: "fault_enumeration",
-    rule: "case = (lineage formula built through the real LineageStore, seed probabilities from {0,0.2,0.5,0.9,1}, seed kinds, HybridConfig, clock-fault index): formulas = all monotone DNFs (with shared seeds and subsumed clauses), And(Or,Or) nestings (two depths), every single-Not variant of those, the same with seeds {0,1} in an exclusive group, with one seed id absent from the snapshot, and constant/complement specials, over <=4 seeds (quick: all 127 DNFs over 3 seeds, the 575 DNFs with <=3 clauses over 4; thorough: all 32767 DNFs over 4 seeds, 2-clause DNFs and And(Or,Or) over 5 and 6 seeds, window-DNF families over 6, 8 and 12 seeds); probability vectors: 5 fixed spreads per formula (two dyadic, one uniformly 0.2) and, for the DNFs over 3 seeds, all 125 assignments; configs = every valid combination of k_initial{1,2} x k_max{k_initial,4} x k_growth 2 x threshold{0,.3,.5,.9,1} x band{0,.2} x gain floor{0,.05} x node budget{2,8,1000} (+7 invalid configs) for the core families, fixed sub-grids of 30 / 12 of these configurations elsewhere (counters setups_* / evals_* say how much each family got); for each (formula,probabilities,config) the fault-free run of evaluate_hybrid_with_clock is executed with a counting clock, then one run per clock reading n in [0,readings) and per fault mode (single jump past all deadlines at reading n / runaway clock from reading n); compile_lineage_to_sdd_with_clock likewise per reading and per node budget 2..=needed+1; evaluate_topk for k in {0,1,2,3,4,8} x node budgets; Reasoner::infer_new_facts_with_hybrid on 21 acyclic positive programs against possible-worlds enumeration over a naive fixpoint. Oracle: exact truth-table probability p* (exclusive group = exactly one member true, member i with probability p_i, group mass 1; a missing seed = every completion p in [0,1] must be respected): Exact => |p-p*|<=1e-9; every reported lower/upper bound brackets p* (1e-9); Alert => p* >= threshold, NoAlert => p* < threshold (no slack when all probabilities are in {0,.5,1}, i.e. arithmetic is exact; 1e-9 otherwise); NeedsExact/Indeterminate always acceptable. non-trivial = (formula, probabilities, seed kinds) with 0 < p* < 1 and >= 2 distinct seeds in the formula; distinct = distinct such triples; outcomes = distinct (entry point, status, decision, reason, fault reached, fault changed the result)",
+    rule: "case = (lineage formula built through the real LineageStore, seed probabilities from {0,0.2,0.5,0.9,1}, seed kinds, HybridConfig, clock-fault index): formulas = all monotone DNFs (with shared seeds and subsumed clauses), And(Or,Or) nestings (two depths), every single-Not variant of those, the same with seeds {0,1} in an exclusive group, with one seed id absent from the snapshot, and constant/complement specials, over <=4 seeds (quick: all 127 DNFs over 3 seeds, the 575 DNFs with <=3 clauses over 4; thorough: all 32767 DNFs over 4 seeds, 2-clause DNFs and And(Or,Or) over 5 and 6 seeds, window-DNF families over 6, 8 and 12 seeds); probability vectors: 5 fixed spreads per formula (two dyadic, one uniformly 0.2) and, for the DNFs over 3 seeds, all 125 assignments; configs = every valid combination of k_initial{1,2} x k_max{k_initial,4} x k_growth 2 x threshold{0,.3,.5,.9,1} x band{0,.2} x gain floor{0,.05} x node budget{2,8,1000} (+7 invalid configs) for the core families, fixed sub-grids of 30 / 12 of these configurations elsewhere (counters setups_* / evals_* say how much each family got); for each (formula,probabilities,config) the fault-free run of evaluate_hybrid_with_clock is executed with a counting clock, then one run per clock reading n in [0,readings) and per fault mode (single jump past all deadlines at reading n / runaway clock from reading n); compile_lineage_to_sdd_with_clock likewise per reading and per node budget 2..=needed+1; evaluate_topk for k in {0,1,2,3,4,8} x node budgets; Reasoner::infer_new_facts_with_hybrid on 21 acyclic positive programs against possible-worlds enumeration over a naive fixpoint. Round-3 additions: families exclusive2 (TWO exclusive groups {0,1} and {2,3}, each completed to mass 1 by its own filler member; all DNFs with <= 2 clauses and all And(Or,Or) over 4 seeds, single-Not variants (quick: every 8th); probability splits incl. members of probability 0 and 1: quick 2, thorough 5) and exclusive3 (one group of three {0,1,2} + an independent seed; quick 2 splits, thorough 4 x 2), both under the 5-configuration set Excl (thresholds {.3,.5,.9} at node budget 1000, threshold .5 at node budgets 8 and 16: lineages over exclusive groups never enter the top-k phase); family dnf_k: all 127 DNFs over 3 seeds (all-0.5; the 18 irredundant ones also under a 0/.5/1 vector) and irredundant DNFs with 2..3 (thorough 4) clauses over 4 seeds under the grid Extra = 9 controller growth paths (k_initial,k_max,k_growth) in {(1,4,3),(2,6,3),(1,3,2),(3,3,2),(3,8,2),(8,8,2),(1,16,2),(8,64,2),(1,64,3)} x thresholds {.125,.375,.5,.75} with (band,floor) = (.02,1e-4) and thresholds {.25,.5} with (0,0) + HybridConfig::default() with 1 s budgets at thresholds {.5,.375,.125} = 57 configurations; quick tier also runs window DNFs over 6 and 8 seeds (thorough: 6, 8, 12) under the growth paths on thresholds {.375,.75} + the default configuration; third clock mode 'step' (every reading advances time by 1 ms and both budgets are j ms, for every j in [1, readings+1]: the SDD deadline expires strictly inside the compile, also after a top-k expiry), run for every configuration of the round-3 sets and every third configuration of the 12- and 30-configuration sets (thorough: all of those, and the quarter of the 240-grid with band > 0 and floor > 0); evaluate_topk additionally with time budgets 0 and 1 ns; end-to-end: one program with two exclusive groups and five programs with negation as failure in the top stratum (negated seed, absent fact, derived fact, triple asserted twice, member of an exclusive group), reference = stratified model per world. Oracle: exact truth-table probability p* (exclusive group = exactly one member true, member i with probability p_i, group mass 1; a missing seed = every completion p in [0,1] must be respected): Exact => |p-p*|<=1e-9; every reported lower/upper bound brackets p* (1e-9); Alert => p* >= threshold, NoAlert => p* < threshold (no slack when all probabilities are in {0,.5,1}, i.e. arithmetic is exact; 1e-9 otherwise); NeedsExact/Indeterminate always acceptable. non-trivial = (formula, probabilities, seed kinds) with 0 < p* < 1 and >= 2 distinct seeds in the formula; distinct = distinct such triples; outcomes = distinct (entry point, status, decision, reason, fault reached, fault changed the result)",
     assumptions: &[
         "reference: truth-table summation over all worlds (harness/src/reference/lineage_tt.rs), self-tested on hand-computed cases incl. the repository's own fixtures (0.64, 0.36, 0.2)",
         "exclusive groups are only generated with total mass 1 (an unreferenced filler member completes the group), where the exactly-one constraint of compile_lineage_to_sdd and the annotated-disjunction reading coincide",
@@ -30,7 +30,11 @@ pub const DEF: PropDef = PropDef {
         "clock faults are monotone: single jump of +1h at reading n, or +1h at every reading from n on; time never goes backwards; budgets are 1 s so the fault-free counting clock (frozen time) never expires",
         "evaluate_topk and the end-to-end entry use the real clock with a 30 s budget; a real expiry there yields Err/NeedsExact, which the oracle accepts",
         "end-to-end programs: positive, acyclic predicate graph, <= 6 uncertain facts, 5 probability vectors each (exclusive groups get fixed mass-1 splits (.5,.5) (1,0) (.2,.8) / (.2,.3,.5) (.5,.5,0) (0,0,1)); only the soundness of returned results is judged here, completeness of derivation belongs to C05/C06 (counter e2e_derivable_fact_without_result is informative)",
-        "invalid configurations are outside the property's quantifier; the same soundness oracle is applied to whatever they return (NaN threshold: no decision is justified) and the number answered NeedsExact is counted",
+        "invalid configurations are outside the property's quantifier (\"all valid configurations\"): they are run, and what they answer is only counted (invalid_config_needs_exact / invalid_config_other_answer / invalid_config_panic), never judged",
+        "several exclusive groups are mutually independent and independent of the independent seeds (one member per group, product of the member probabilities); every generated group has mass 1",
+        "stepping clock: budgets of j ms against a clock advancing 1 ms per reading; budgets are valid (non-zero) configuration values, so these runs are inside the quantifier",
+        "end-to-end programs with negation: rules with a negated atom form the top stratum (their head predicates occur in no body; negated atoms are range-restricted), so the stratified model per world is positive closure + one pass, which is what the reference computes (asserted per program); the known single-negative-pass findings of C05/C06 concern rules ABOVE a negated rule and are not exercised here",
+        "evaluate_topk with a zero / 1 ns budget uses the real clock: Err or a bracketing interval are both accepted",
         "SDD checkpoint counts may vary between runs (HashMap iteration inside the SDD package); a replay therefore re-runs every fault index of the recorded (formula, probabilities, config)",
     ],
     run,
@@ -39,7 +43,7 @@ pub const DEF: PropDef = PropDef {
     shards: 0,
 };
 
-const FAMILIES: [&str; 14] = ["dnf", "dnf_allprobs", "dnf4", "nested", "nested_deep", "one_not", "exclusive", "missing", "special", "wide", "wide_exclusive", "dnf_window", "dnf12", "replay"];
+const FAMILIES: [&str; 17] = ["dnf", "dnf_allprobs", "dnf4", "nested", "nested_deep", "one_not", "exclusive", "missing", "special", "wide", "wide_exclusive", "dnf_window", "dnf12", "replay", "exclusive2", "exclusive3", "dnf_k"];
 const PVALS: [f64; 5] = [0.0, 0.2, 0.5, 0.9, 1.0];
 const GROUP_ID: u32 = 7;
 const EPS: f64 = 1e-9;
@@ -56,35 +60,49 @@ struct Setup {
     /// seed indices 0..n exist (index = SeedId)
     n: usize,
     probs: Vec<f64>,
-    /// seeds {0,1} form exclusive group 7 (+ filler seed n when p0+p1 < 1)
-    excl: bool,
+    /// exclusive groups over seed indices < n (group i gets id 7+i, and a filler seed with index
+    /// >= n when its members' probabilities sum to less than 1); `[[0,1]]` is the round-1 family
+    groups: Vec<Vec<usize>>,
     /// seed index absent from the snapshot handed to the evaluator
     missing: Option<usize>,
 }
 
 impl Setup {
     fn json(&self) -> Value {
-        json!({"fam": self.fam, "f": self.f.text(), "n": self.n, "probs": self.probs.iter().map(|p| format!("{:?}", p)).collect::<Vec<_>>(), "excl": self.excl, "missing": self.missing})
+        json!({"fam": self.fam, "f": self.f.text(), "n": self.n, "probs": self.probs.iter().map(|p| format!("{:?}", p)).collect::<Vec<_>>(), "excl": !self.groups.is_empty(), "groups": self.groups, "missing": self.missing})
     }
     fn from_json(v: &Value) -> Option<Setup> {
         let fam = v.get("fam").and_then(|f| f.as_str()).unwrap_or("");
+        let groups: Vec<Vec<usize>> = match v.get("groups").and_then(|g| g.as_array()) {
+            Some(gs) => gs.iter().map(|g| g.as_array().map(|m| m.iter().filter_map(|x| x.as_u64()).map(|x| x as usize).collect::<Vec<usize>>())).collect::<Option<Vec<_>>>()?,
+            // replay files written before the `groups` field existed
+            None => {
+                if v.get("excl").and_then(|e| e.as_bool()).unwrap_or(false) {
+                    vec![vec![0, 1]]
+                } else {
+                    vec![]
+                }
+            }
+        };
         Some(Setup {
             fam: FAMILIES.iter().copied().find(|f| *f == fam).unwrap_or("replay"),
             f: Fm::parse(v.get("f")?.as_str()?)?,
             n: v.get("n")?.as_u64()? as usize,
             probs: v.get("probs")?.as_array()?.iter().map(|p| p.as_str().and_then(|s| s.parse::<f64>().ok())).collect::<Option<Vec<f64>>>()?,
-            excl: v.get("excl")?.as_bool()?,
+            groups,
             missing: v.get("missing").and_then(|m| m.as_u64()).map(|m| m as usize),
         })
     }
-    fn key(&self) -> (String, Vec<u64>, bool, Option<usize>) {
-        (self.f.text(), self.probs.iter().map(|p| p.to_bits()).collect(), self.excl, self.missing)
+    fn key(&self) -> (String, Vec<u64>, Vec<Vec<usize>>, Option<usize>) {
+        (self.f.text(), self.probs.iter().map(|p| p.to_bits()).collect(), self.groups.clone(), self.missing)
     }
     fn tags(&self) -> Vec<String> {
         let mut t = vec![format!("fam={}", self.fam)];
         t.push(if self.f.has_not() { "lineage=non_monotone".into() } else { "lineage=monotone".into() });
-        if self.excl {
+        if !self.groups.is_empty() {
             t.push("exclusive_group".into());
+            t.push(format!("exclusive_groups={}", self.groups.len()));
+            t.push(format!("largest_exclusive_group={}", self.groups.iter().map(|g| g.len()).max().unwrap_or(0)));
         }
         if self.missing.is_some() {
             t.push("missing_seed".into());
@@ -130,28 +148,31 @@ fn build_lineage(store: &mut LineageStore, f: &Fm, ids: &BTreeMap<usize, SeedId>
 
 fn build(s: &Setup) -> Result<Built, String> {
     let mut probs = s.probs.clone();
-    let mut group: Vec<usize> = vec![];
-    if s.excl {
-        group = vec![0, 1];
-        let rest = 1.0 - probs[0] - probs[1];
+    let mut groups: Vec<Vec<usize>> = s.groups.clone();
+    for g in groups.iter_mut() {
+        if g.iter().any(|i| *i >= s.n) {
+            return Err("exclusive group member outside the seed range".into());
+        }
+        let rest = 1.0 - g.iter().map(|i| probs[*i]).sum::<f64>();
         if rest < -1e-12 {
             return Err("exclusive group mass > 1".into());
         }
         if rest > 1e-12 {
             probs.push(rest);
-            group.push(s.n);
+            g.push(probs.len() - 1);
         }
     }
+    let in_group = |i: usize| groups.iter().any(|g| g.contains(&i));
     let spec_for = |skip: Option<usize>| -> Vec<SeedSpec> {
         let mut specs = Vec::new();
-        if !group.is_empty() {
+        for (gi, group) in groups.iter().enumerate() {
             specs.push(SeedSpec::ExclusiveGroup {
-                group_id: GROUP_ID,
+                group_id: GROUP_ID + gi as u32,
                 choices: group.iter().filter(|g| Some(**g) != skip).map(|g| ExclusiveChoice { triple: seed_triple(*g), prob: probs[*g], choice_id: *g as u32 }).collect(),
             });
         }
         for i in 0..probs.len() {
-            if group.contains(&i) || Some(i) == skip {
+            if in_group(i) || Some(i) == skip {
                 continue;
             }
             specs.push(SeedSpec::Independent { triple: seed_triple(i), prob: probs[i], seed_id: i as u32 });
@@ -168,7 +189,7 @@ fn build(s: &Setup) -> Result<Built, String> {
     let root = build_lineage(&mut store, &s.f, &ids);
     let truth = match s.missing {
         None => {
-            let p = SeedModel { probs: probs.clone(), group: group.clone() }.prob(&s.f);
+            let p = SeedModel { probs: probs.clone(), groups: groups.clone() }.prob(&s.f);
             (p, p)
         }
         Some(m) => {
@@ -177,7 +198,7 @@ fn build(s: &Setup) -> Result<Built, String> {
             for pm in [0.0, 1.0] {
                 let mut p2 = probs.clone();
                 p2[m] = pm;
-                let p = SeedModel { probs: p2, group: group.clone() }.prob(&s.f);
+                let p = SeedModel { probs: p2, groups: groups.clone() }.prob(&s.f);
                 lo = lo.min(p);
                 hi = hi.max(p);
             }
@@ -201,7 +222,14 @@ enum FaultMode {
     Single,
     /// +1h at reading `at` and again at every later reading
     Runaway,
+    /// stepping clock: every reading advances time by STEP, and BOTH budgets of the configuration
+    /// are replaced by `at` x STEP: the top-k deadline expires `at` readings after the top-k phase
+    /// started and the SDD deadline `at` readings after the compile started, i.e. (unlike the two
+    /// jump modes) an SDD expiry strictly inside the compile after a top-k expiry
+    Step,
 }
+
+const STEP: Duration = Duration::from_millis(1);
 
 impl FaultMode {
     fn name(self) -> &'static str {
@@ -209,12 +237,14 @@ impl FaultMode {
             FaultMode::None => "none",
             FaultMode::Single => "single",
             FaultMode::Runaway => "runaway",
+            FaultMode::Step => "step",
         }
     }
     fn parse(s: &str) -> FaultMode {
         match s {
             "single" => FaultMode::Single,
             "runaway" => FaultMode::Runaway,
+            "step" => FaultMode::Step,
             _ => FaultMode::None,
         }
     }
@@ -241,6 +271,7 @@ impl HybridClock for FaultClock {
         let i = self.reads.fetch_add(1, Ordering::SeqCst);
         match self.mode {
             FaultMode::None => self.base,
+            FaultMode::Step => self.base + STEP * (i.min(1_000_000) as u32),
             _ if i < self.at => self.base,
             FaultMode::Single => self.base + JUMP,
             FaultMode::Runaway => self.base + JUMP * ((i - self.at + 1).min(100_000) as u32),
@@ -398,6 +429,14 @@ fn judge(c: &Claim, truth: (f64, f64), threshold: f64, strict: bool) -> Option<(
 
 fn run_hybrid(b: &Built, cfg: &HybridConfig, mode: FaultMode, at: u64) -> Result<(Claim, u64), String> {
     let clock = FaultClock::new(Instant::now(), mode, at);
+    let stepped;
+    let cfg = if mode == FaultMode::Step {
+        let budget = STEP * (at.clamp(1, 1_000_000) as u32);
+        stepped = HybridConfig { topk_budget: budget, sdd_budget: budget, ..cfg.clone() };
+        &stepped
+    } else {
+        cfg
+    };
     let r = guarded(|| evaluate_hybrid_with_clock(&b.store, &b.seeds, b.root, cfg, &clock))?;
     Ok((Claim::of(&r), clock.reads()))
 }
@@ -413,7 +452,7 @@ struct Tally {
 }
 
 /// one (setup, config): fault-free run, then every fault index x mode. Returns evaluations made.
-fn hybrid_all_faults(out: &mut ShardOut, s: &Setup, b: &Built, cfg: &HybridConfig, valid: bool, tally: &mut Tally) {
+fn hybrid_all_faults(out: &mut ShardOut, s: &Setup, b: &Built, cfg: &HybridConfig, valid: bool, step: bool, tally: &mut Tally) {
     let mut one = |out: &mut ShardOut, mode: FaultMode, at: u64, base: Option<&Claim>| -> Option<(Claim, u64)> {
         out.evaluations += 1;
         let res = run_hybrid(b, cfg, mode, at);
@@ -428,6 +467,11 @@ fn hybrid_all_faults(out: &mut ShardOut, s: &Setup, b: &Built, cfg: &HybridConfi
             tags.push("dyadic_probabilities".into());
         }
         match res {
+            Err(_) if !valid => {
+                // outside the quantifier ("all valid configurations"): counted, not judged
+                out.count("invalid_config_panic", 1);
+                None
+            }
             Err(p) => {
                 // totality: the entry point returns a result enum, never an error
                 let again = run_hybrid(b, cfg, mode, at);
@@ -439,7 +483,7 @@ fn hybrid_all_faults(out: &mut ShardOut, s: &Setup, b: &Built, cfg: &HybridConfi
                 None
             }
             Ok((claim, reads)) => {
-                let reached = mode == FaultMode::None || reads > at;
+                let reached = mode == FaultMode::None || mode == FaultMode::Step || reads > at;
                 let changed = base.map_or(false, |b0| b0.bits() != claim.bits());
                 if mode != FaultMode::None {
                     if reached {
@@ -462,8 +506,25 @@ fn hybrid_all_faults(out: &mut ShardOut, s: &Setup, b: &Built, cfg: &HybridConfi
                     // what the evaluator said after an injected expiry
                     out.count(&format!("after_expiry_{}_{:?}", claim.status, claim.decision), 1);
                 }
-                if !valid && claim.status == "NeedsExact" {
-                    out.count("invalid_config_needs_exact", 1);
+                if mode == FaultMode::Step {
+                    out.count("step_clock_runs", 1);
+                    if changed {
+                        out.count("step_clock_runs_changing_the_result", 1);
+                    }
+                    if claim.status == "NeedsExact" && claim.reason == "sdd-budget" && at >= 2 {
+                        // the SDD deadline lies `at` >= 2 readings after the compile started: it expired
+                        // strictly inside the compile, not at its first checkpoint
+                        out.count("step_clock_sdd_expiry_inside_compile", 1);
+                        if claim.lower.is_none() && base.map_or(false, |b0| b0.reason != "exact-sdd" && b0.reason != "sdd-budget") {
+                            // ... and the fault-free run had been decided by the top-k phase, which here gave up first
+                            out.count("step_clock_sdd_expiry_after_topk_expiry", 1);
+                        }
+                    }
+                }
+                if !valid {
+                    // outside the quantifier ("all valid configurations"): counted, not judged
+                    out.count(if claim.status == "NeedsExact" { "invalid_config_needs_exact" } else { "invalid_config_other_answer" }, 1);
+                    return Some((claim, reads));
                 }
                 if let Some((sym, detail)) = judge(&claim, b.truth, cfg.threshold, b.strict) {
                     tags.push(format!("status={}", claim.status));
@@ -492,6 +553,13 @@ fn hybrid_all_faults(out: &mut ShardOut, s: &Setup, b: &Built, cfg: &HybridConfi
             one(out, mode, at, Some(&base));
         }
     }
+    if step && valid {
+        // budgets of j clock steps for every j up to the number of readings of the fault-free run (+1:
+        // a budget that is never exhausted under the stepping clock)
+        for at in 1..=reads0 + 1 {
+            one(out, FaultMode::Step, at, Some(&base));
+        }
+    }
 }
 
 fn check_topk(out: &mut ShardOut, s: &Setup, b: &Built) {
@@ -499,13 +567,21 @@ fn check_topk(out: &mut ShardOut, s: &Setup, b: &Built) {
         Ok(g) => g,
         Err(_) => return,
     };
-    for k in [0usize, 1, 2, 3, 4, 8] {
-        for nb in [2usize, 8, 1000] {
+    // time budgets: generous; zero (the deadline has passed before the first proof is popped); 1 ns
+    for (k, nb, budget) in [0usize, 1, 2, 3, 4, 8].into_iter().flat_map(|k| [2usize, 8, 1000].into_iter().map(move |nb| (k, nb))).flat_map(|(k, nb)| [Duration::from_secs(30), Duration::ZERO, Duration::from_nanos(1)].into_iter().map(move |bu| (k, nb, bu))) {
+        {
+            if !budget.is_zero() && budget < Duration::from_secs(1) && nb != 1000 {
+                continue; // the 1 ns budget once per k
+            }
             out.evaluations += 1;
-            let call = || guarded(|| evaluate_topk(&guard, &b.seeds, b.root, k, Duration::from_secs(30), nb));
-            let case = || json!({"entry": "topk", "setup": s.json(), "k": k, "node_budget": nb});
+            let call = || guarded(|| evaluate_topk(&guard, &b.seeds, b.root, k, budget, nb));
+            let case = || json!({"entry": "topk", "setup": s.json(), "k": k, "node_budget": nb, "budget_ns": budget.as_nanos() as u64});
             let mut tags = s.tags();
             tags.push("entry=evaluate_topk".into());
+            if budget < Duration::from_secs(1) {
+                tags.push("topk_budget=tiny".into());
+                out.count("topk_tiny_budget_calls", 1);
+            }
             let verdict = |r: &Result<Result<shared::hybrid::TopKEvaluation, shared::hybrid::HybridReason>, String>| -> Option<(&'static str, String)> {
                 match r {
                     Err(p) => Some(("panic", p.clone())),
@@ -837,6 +913,14 @@ enum Cfgs {
     Reduced,
     /// k (1,1),(1,4) x 5 thresholds x node budget 1000 (band .2, floor .05) + k (2,4) x thresholds {.3,.9} x node budget 8 (band 0, floor 0): 12
     Tiny,
+    /// round-3 grid: 9 growth paths (k_growth 3, k_max up to 64, k_initial 3 / 8) x 5 dyadic-eighth thresholds (band .02 / floor 1e-4 on four, band 0 / floor 0 on two of them) + 3 default-configuration variants: 57
+    Extra,
+    /// Tiny + the 9 growth paths on thresholds {.375,.75} + 2 default-configuration variants: 32
+    TinyK,
+    /// the 9 growth paths on thresholds {.375,.75} + 2 default-configuration variants: 20
+    OnlyK,
+    /// for lineages over exclusive groups (top-k phase never entered): thresholds {.3,.5,.9} at node budget 1000, threshold .5 at node budgets 8 and 16: 5
+    Excl,
 }
 
 struct Job {
@@ -859,7 +943,7 @@ fn is_antichain(masks: &[u32]) -> bool {
 fn enumerate_jobs(thorough: bool) -> Vec<Job> {
     let mut jobs = Vec::new();
     let mut push = |fam: &'static str, f: &Fm, n: usize, probs: Vec<f64>, excl: bool, missing: Option<usize>, cfgs: Cfgs, direct: bool| {
-        jobs.push(Job { setup: Setup { fam, f: f.clone(), n, probs, excl, missing }, cfgs, direct });
+        jobs.push(Job { setup: Setup { fam, f: f.clone(), n, probs, groups: if excl { vec![vec![0, 1]] } else { vec![] }, missing }, cfgs, direct });
     };
     let pv = |i: usize, n: usize| PVECS[i][..n].to_vec();
     let forms = |m: &[Vec<u32>]| -> Vec<Fm> { m.iter().map(|c| dnf(c)).collect() };
@@ -1042,6 +1126,109 @@ fn enumerate_jobs(thorough: bool) -> Vec<Job> {
             }
         }
     }
+    // ------------------------------- round 3 families -------------------------------
+    let mut add = |fam: &'static str, f: &Fm, n: usize, probs: Vec<f64>, groups: Vec<Vec<usize>>, cfgs: Cfgs, direct: bool| {
+        jobs.push(Job { setup: Setup { fam, f: f.clone(), n, probs, groups, missing: None }, cfgs, direct });
+    };
+    // --- two exclusive groups {0,1} and {2,3} (each completed to mass 1 by its own filler): the
+    // per-group loop of the compiler runs twice; lineages touching one member of each group, both
+    // members of one group, and single-Not variants
+    let dnf4_le2 = forms(&dnf_masks(4, 2));
+    let mut neg4: Vec<Fm> = Vec::new();
+    for f in dnf4_le2.iter().chain([Fm::And(vec![disj(3), disj(12)]), Fm::And(vec![disj(5), disj(10)]), Fm::And(vec![disj(7), disj(14)])].iter()) {
+        neg4.extend(not_variants(f));
+    }
+    neg4.sort();
+    neg4.dedup();
+    let splits2: [[f64; 4]; 5] = [[0.5, 0.5, 0.5, 0.5], [0.2, 0.5, 0.9, 0.0], [0.0, 1.0, 0.5, 0.2], [0.2, 0.2, 0.5, 0.5], [1.0, 0.0, 0.0, 0.0]];
+    let g2 = || vec![vec![0usize, 1], vec![2, 3]];
+    // (a lineage over two groups costs several hundred clock readings per run, and every reading is a
+    // fault index under three clock modes: the quick tier takes two splits and the 5-configuration set)
+    for (si, sp) in splits2.iter().enumerate() {
+        if !thorough && si >= 2 {
+            continue;
+        }
+        for f in dnf4_le2.iter().chain(nested_and_or(4).iter()) {
+            add("exclusive2", f, 4, sp.to_vec(), g2(), Cfgs::Excl, si == 0 || thorough);
+        }
+        for f in neg4.iter().step_by(if thorough { 1 } else { 8 }) {
+            if thorough || si == 0 {
+                add("exclusive2", f, 4, sp.to_vec(), g2(), Cfgs::Excl, thorough);
+            }
+        }
+    }
+    // --- one exclusive group of three {0,1,2} + an independent seed 3
+    let splits3: [[f64; 3]; 4] = [[0.2, 0.3, 0.5], [0.2, 0.2, 0.2], [0.5, 0.5, 0.0], [0.0, 0.0, 1.0]];
+    let mut forms3: Vec<Fm> = dnf4_le2.clone();
+    forms3.extend(nested_and_or(3));
+    let mut neg3: Vec<Fm> = Vec::new();
+    for f in dnf3_le2.iter() {
+        neg3.extend(not_variants(f));
+    }
+    neg3.sort();
+    neg3.dedup();
+    forms3.extend(neg3.into_iter().step_by(if thorough { 1 } else { 3 }));
+    forms3.sort();
+    forms3.dedup();
+    for (si, sp) in splits3.iter().enumerate() {
+        if !thorough && si >= 2 {
+            continue;
+        }
+        for p3 in [0.5, 0.9] {
+            if p3 == 0.9 && !thorough {
+                continue;
+            }
+            let mut p = sp.to_vec();
+            p.push(p3);
+            for f in &forms3 {
+                add("exclusive3", f, 4, p.clone(), vec![vec![0, 1, 2]], Cfgs::Excl, si == 0 || thorough);
+            }
+        }
+    }
+    // --- controller growth paths / default configuration / dyadic-eighth thresholds (Cfgs::Extra)
+    for f in &dnf3 {
+        add("dnf_k", f, 3, pv(0, 3), vec![], Cfgs::Extra, false);
+        if thorough || anti3.contains(f) {
+            add("dnf_k", f, 3, pv(1, 3), vec![], Cfgs::Extra, false);
+        }
+    }
+    let mut nth = 0usize;
+    for m in dnf_masks(4, if thorough { 4 } else { 3 }) {
+        if m.len() >= 2 && is_antichain(&m) {
+            nth += 1;
+            if !thorough && m.len() == 3 && nth % 6 != 0 {
+                continue;
+            }
+            add("dnf_k", &dnf(&m), 4, pv(0, 4), vec![], Cfgs::Extra, false);
+            if thorough {
+                add("dnf_k", &dnf(&m), 4, pv(4, 4), vec![], Cfgs::Extra, false);
+            }
+        }
+    }
+    // --- quick tier: window DNFs over 6 and 8 seeds (many small proofs: real residual / probe mass
+    // and more than two controller rounds); the thorough tier has them above under the full grid
+    if !thorough {
+        for f in window_dnfs(6) {
+            for i in [0usize, 4] {
+                add("dnf_window", &f, 6, pv(i, 6), vec![], Cfgs::OnlyK, i == 4);
+            }
+        }
+        for (fi, f) in window_dnfs(8).iter().enumerate() {
+            match fi % 3 {
+                0 => add("dnf_window", f, 8, pv(0, 8), vec![], Cfgs::OnlyK, false),
+                1 => add("dnf_window", f, 8, pv(4, 8), vec![], Cfgs::Tiny, false),
+                _ => {}
+            }
+        }
+    } else {
+        for n in [6usize, 8, 12] {
+            for f in window_dnfs(n) {
+                for i in [0usize, 4] {
+                    add("dnf_window", &f, n, pv(i, n), vec![], Cfgs::TinyK, false);
+                }
+            }
+        }
+    }
     jobs
 }
 
@@ -1070,16 +1257,79 @@ fn tiny_configs() -> Vec<HybridConfig> {
     v
 }
 
+/// controller growth paths not reachable with k_growth 2 and k_max <= 4: 1->3->4, 2->6, 1->2->3, a
+/// single round at 3 and at 8, 3->6->8, 1->2->4->8->16, 8->16->32->64, 1->3->9->27->64
+const EXTRA_K: [(usize, usize, usize); 9] = [(1, 4, 3), (2, 6, 3), (1, 3, 2), (3, 3, 2), (3, 8, 2), (8, 8, 2), (1, 16, 2), (8, 64, 2), (1, 64, 3)];
+
+/// the shipped default configuration with 1 s budgets (so that only injected faults expire)
+fn default_config_1s() -> HybridConfig {
+    HybridConfig { topk_budget: Duration::from_secs(1), sdd_budget: Duration::from_secs(1), ..HybridConfig::default() }
+}
+
+/// round-3 grid: the growth paths above x thresholds on dyadic eighths (strict >= / < boundaries are met
+/// whenever p* or a lower bound is a multiple of 1/8) x (band, gain floor) in {(.02,1e-4),(0,0)}, + the default configuration
+fn extra_configs() -> Vec<HybridConfig> {
+    let mut v = Vec::new();
+    for (k_initial, k_max, k_growth) in EXTRA_K {
+        for threshold in [0.125, 0.25, 0.375, 0.5, 0.75] {
+            for (band, floor) in [(0.02, 1e-4), (0.0, 0.0)] {
+                // (band 0 / floor 0 on two of the five thresholds; threshold .25 only there)
+                if (band == 0.0) != (threshold == 0.25 || threshold == 0.5) && threshold != 0.5 {
+                    continue;
+                }
+                v.push(HybridConfig { threshold, band_epsilon: band, marginal_gain_floor: floor, k_initial, k_max, k_growth, ..base_config() });
+            }
+        }
+    }
+    for threshold in [0.5, 0.375, 0.125] {
+        v.push(HybridConfig { threshold, ..default_config_1s() });
+    }
+    v
+}
+
+/// the same growth paths on two thresholds only (for the larger formulas)
+fn extra_k_configs() -> Vec<HybridConfig> {
+    let mut v = Vec::new();
+    for (k_initial, k_max, k_growth) in EXTRA_K {
+        for threshold in [0.375, 0.75] {
+            v.push(HybridConfig { threshold, band_epsilon: 0.02, marginal_gain_floor: 1e-4, k_initial, k_max, k_growth, ..base_config() });
+        }
+    }
+    v.push(default_config_1s());
+    v.push(HybridConfig { threshold: 0.375, ..default_config_1s() });
+    v
+}
+
+/// lineages over exclusive groups never enter the top-k phase, so k / band / floor are irrelevant:
+/// three thresholds at node budget 1000 and threshold .5 at node budgets 8 and 16
+fn excl_configs() -> Vec<HybridConfig> {
+    let mut v = Vec::new();
+    for threshold in [0.3, 0.5, 0.9] {
+        v.push(HybridConfig { threshold, ..base_config() });
+    }
+    for nb in [8usize, 16] {
+        v.push(HybridConfig { sdd_node_budget: nb, ..base_config() });
+    }
+    v
+}
+
 struct ConfigSets {
     full: Vec<HybridConfig>,
     reduced: Vec<HybridConfig>,
     tiny: Vec<HybridConfig>,
     invalid: Vec<HybridConfig>,
+    extra: Vec<HybridConfig>,
+    tiny_k: Vec<HybridConfig>,
+    excl: Vec<HybridConfig>,
+    only_k: Vec<HybridConfig>,
+    thorough: bool,
 }
 
 impl ConfigSets {
-    fn new() -> Self {
-        ConfigSets { full: valid_configs(), reduced: reduced_configs(), tiny: tiny_configs(), invalid: invalid_configs() }
+    fn new(thorough: bool) -> Self {
+        let mut tiny_k = tiny_configs();
+        tiny_k.extend(extra_k_configs());
+        ConfigSets { full: valid_configs(), reduced: reduced_configs(), tiny: tiny_configs(), invalid: invalid_configs(), extra: extra_configs(), tiny_k, excl: excl_configs(), only_k: extra_k_configs(), thorough }
     }
 }
 
@@ -1103,13 +1353,25 @@ fn run_job(out: &mut ShardOut, job: &Job, sets: &ConfigSets, tally: &mut Tally) 
         Cfgs::Full => &sets.full,
         Cfgs::Reduced => &sets.reduced,
         Cfgs::Tiny => &sets.tiny,
+        Cfgs::Extra => &sets.extra,
+        Cfgs::TinyK => &sets.tiny_k,
+        Cfgs::Excl => &sets.excl,
+        Cfgs::OnlyK => &sets.only_k,
     };
-    for cfg in cfgs {
-        hybrid_all_faults(out, s, &b, cfg, true, tally);
+    for (ci, cfg) in cfgs.iter().enumerate() {
+        // the stepping clock: for every configuration of the round-3 sets; for every third
+        // configuration of the Tiny / Reduced sets (thorough: all of them); in the 240-configuration
+        // grid only in the thorough tier, on the quarter with band > 0 and gain floor > 0
+        let step = match job.cfgs {
+            Cfgs::Full => sets.thorough && cfg.band_epsilon > 0.0 && cfg.marginal_gain_floor > 0.0,
+            Cfgs::Tiny | Cfgs::Reduced => sets.thorough || ci % 3 == 1,
+            Cfgs::Extra | Cfgs::TinyK | Cfgs::OnlyK | Cfgs::Excl => true,
+        };
+        hybrid_all_faults(out, s, &b, cfg, true, step, tally);
     }
     if job.cfgs == Cfgs::Full {
         for cfg in &sets.invalid {
-            hybrid_all_faults(out, s, &b, cfg, false, tally);
+            hybrid_all_faults(out, s, &b, cfg, false, false, tally);
         }
     }
     let evals_mid = out.evaluations;
@@ -1132,8 +1394,8 @@ struct Prog {
     certain: Vec<Atom>,
     /// seed i asserts this triple
     seeds: Vec<Atom>,
-    /// seed indices forming one exclusive group (empty = none)
-    group: Vec<usize>,
+    /// exclusive groups as lists of seed indices (group i gets id 7+i)
+    groups: Vec<Vec<usize>>,
 }
 
 fn at(s: &str) -> Atom {
@@ -1142,13 +1404,28 @@ fn at(s: &str) -> Atom {
     (v[0].to_string(), v[1].to_string(), v[2].to_string())
 }
 
+/// `h1 ; h2 :- b1 , b2 , not b3` (a body atom starting with `not ` is negated)
 fn nrule(s: &str) -> NRule {
     let (h, b) = s.split_once(":-").expect("rule needs :-");
-    NRule { head: h.split(';').map(at).collect(), body: b.split(',').map(at).collect() }
+    let mut body = Vec::new();
+    let mut neg = Vec::new();
+    for a in b.split(',') {
+        match a.trim().strip_prefix("not ") {
+            Some(n) => neg.push(at(n)),
+            None => body.push(at(a)),
+        }
+    }
+    NRule { head: h.split(';').map(at).collect(), body, neg }
 }
 
 fn prog(name: &'static str, rules: &[&str], certain: &[&str], seeds: &[&str], group: &[usize]) -> Prog {
-    Prog { name, rules: rules.iter().map(|r| nrule(r)).collect(), certain: certain.iter().map(|a| at(a)).collect(), seeds: seeds.iter().map(|a| at(a)).collect(), group: group.to_vec() }
+    prog_g(name, rules, certain, seeds, if group.is_empty() { vec![] } else { vec![group.to_vec()] })
+}
+
+fn prog_g(name: &'static str, rules: &[&str], certain: &[&str], seeds: &[&str], groups: Vec<Vec<usize>>) -> Prog {
+    let p = Prog { name, rules: rules.iter().map(|r| nrule(r)).collect(), certain: certain.iter().map(|a| at(a)).collect(), seeds: seeds.iter().map(|a| at(a)).collect(), groups };
+    assert!(top_stratum_negation_only(&p.rules), "program {}: negation only in the top stratum", name);
+    p
 }
 
 fn programs() -> Vec<Prog> {
@@ -1180,24 +1457,45 @@ fn programs() -> Vec<Prog> {
         prog("cross_product", &["?x pair ?y :- ?x isa A , ?y isb B"], &[], &["a1 isa A", "a2 isa A", "b1 isb B"], &[]),
         prog("strata3", &["?x q ?y :- ?x p ?y", "?x r ?y :- ?x q ?y", "?x s ?z :- ?x r ?y , ?y r ?z"], &[], &["a p b", "b p c", "a p c", "c p d"], &[]),
         prog("and_of_ors", &["?x ok O :- ?x a1 ?y , ?x b1 ?z", "?x a1 ?y :- ?x a2 ?y", "?x b1 ?y :- ?x b2 ?y"], &[], &["n a1 u", "n a2 u", "n b1 v", "n b2 v"], &[]),
+        // round 3: two exclusive groups in one program (the second with an independent third proof)
+        prog_g(
+            "exclusive_two_groups",
+            &["?x r ?z :- ?x p ?y , ?y q ?z", "?x both B :- ?x p b , ?x p c", "?y two T :- ?y q z , ?y q w"],
+            &[],
+            &["a p b", "a p c", "b q z", "b q w", "c q z"],
+            vec![vec![0, 1], vec![2, 3]],
+        ),
+        // round 3: negation as failure in the top stratum only (heads feed no rule), so the
+        // lineage handed to the evaluator contains Not: over a seed, over an absent fact, over a
+        // derived fact, over a triple asserted by two seeds, over a member of an exclusive group
+        prog("neg_seed", &["?x alarm A :- ?x temp high , not ?x maint yes"], &[], &["s1 temp high", "s1 maint yes", "s2 temp high"], &[]),
+        prog("neg_derived", &["?x q ?y :- ?x p ?y", "?x only O :- ?x r ?y , not ?x q ?y"], &[], &["a p b", "a r b", "a r c"], &[]),
+        prog("neg_dup_seed", &["?x only O :- ?x r ?y , not ?x p ?y"], &[], &["a p b", "a p b", "a r b"], &[]),
+        prog("neg_exclusive", &["?x notb N :- ?x w d , not ?x p b"], &[], &["a p b", "a p c", "a w d"], &[0, 1]),
+        prog("neg_two_negs", &["?x ok O :- ?x a ?y , not ?x b ?y , not ?x c ?y"], &["m a u"], &["n a u", "n b u", "n c u", "n a v", "m b u"], &[]),
     ]
 }
 
 /// probability vectors for a program: generic vectors for independent seeds, fixed mass-1 splits for the group
 fn prog_prob_vectors(p: &Prog) -> Vec<Vec<f64>> {
     let n = p.seeds.len();
-    let splits: Vec<Vec<f64>> = match p.group.len() {
-        0 => vec![vec![]],
-        2 => vec![vec![0.5, 0.5], vec![1.0, 0.0], vec![0.2, 0.8]],
-        3 => vec![vec![0.2, 0.3, 0.5], vec![0.5, 0.5, 0.0], vec![0.0, 0.0, 1.0]],
-        _ => panic!("unsupported group size"),
+    let splits_for = |len: usize| -> Vec<Vec<f64>> {
+        match len {
+            2 => vec![vec![0.5, 0.5], vec![1.0, 0.0], vec![0.2, 0.8]],
+            3 => vec![vec![0.2, 0.3, 0.5], vec![0.5, 0.5, 0.0], vec![0.0, 0.0, 1.0]],
+            _ => panic!("unsupported group size"),
+        }
     };
     let mut out = Vec::new();
     for (vi, base) in PVECS.iter().enumerate() {
-        let split = &splits[vi % splits.len()];
         let mut v = base[..n].to_vec();
-        for (k, g) in p.group.iter().enumerate() {
-            v[*g] = split[k];
+        for (gi, group) in p.groups.iter().enumerate() {
+            let splits = splits_for(group.len());
+            // (the second group walks its splits in another order than the first)
+            let split = &splits[(vi + gi * (1 + vi / splits.len())) % splits.len()];
+            for (k, g) in group.iter().enumerate() {
+                v[*g] = split[k];
+            }
         }
         out.push(v);
     }
@@ -1228,7 +1526,8 @@ fn run_e2e(p: &Prog, probs: &[f64], cfg: &HybridConfig) -> Result<E2eObs, String
                 let pat = |a: &Atom, d: &mut shared::dictionary::Dictionary| (term(d, &a.0), term(d, &a.1), term(d, &a.2));
                 let premise = nr.body.iter().map(|a| pat(a, &mut d)).collect();
                 let conclusion = nr.head.iter().map(|a| pat(a, &mut d)).collect();
-                rules.push(Rule { premise, negative_premise: vec![], filters: vec![], conclusion });
+                let negative_premise = nr.neg.iter().map(|a| pat(a, &mut d)).collect();
+                rules.push(Rule { premise, negative_premise, filters: vec![], conclusion });
             }
             for a in &p.seeds {
                 seed_triples.push(Triple { subject: d.encode(&a.0), predicate: d.encode(&a.1), object: d.encode(&a.2) });
@@ -1238,11 +1537,11 @@ fn run_e2e(p: &Prog, probs: &[f64], cfg: &HybridConfig) -> Result<E2eObs, String
             r.add_rule(rule);
         }
         let mut specs = Vec::new();
-        if !p.group.is_empty() {
-            specs.push(SeedSpec::ExclusiveGroup { group_id: GROUP_ID, choices: p.group.iter().map(|g| ExclusiveChoice { triple: seed_triples[*g].clone(), prob: probs[*g], choice_id: *g as u32 }).collect() });
+        for (gi, group) in p.groups.iter().enumerate() {
+            specs.push(SeedSpec::ExclusiveGroup { group_id: GROUP_ID + gi as u32, choices: group.iter().map(|g| ExclusiveChoice { triple: seed_triples[*g].clone(), prob: probs[*g], choice_id: *g as u32 }).collect() });
         }
         for i in 0..p.seeds.len() {
-            if !p.group.contains(&i) {
+            if !p.groups.iter().any(|g| g.contains(&i)) {
                 specs.push(SeedSpec::Independent { triple: seed_triples[i].clone(), prob: probs[i], seed_id: i as u32 });
             }
         }
@@ -1268,20 +1567,27 @@ fn check_e2e_case(out: &mut ShardOut, p: &Prog, pi: usize, probs: &[f64], cfg: &
     let case = || json!({"entry": "e2e", "program": p.name, "program_index": pi, "probs": probs.iter().map(|x| format!("{:?}", x)).collect::<Vec<_>>(), "cfg": cfg_json(cfg)});
     let base_tags = || {
         let mut t = vec!["entry=infer_new_facts_with_hybrid".to_string(), format!("program={}", p.name)];
-        if !p.group.is_empty() {
+        if !p.groups.is_empty() {
             t.push("exclusive_group".into());
+            t.push(format!("exclusive_groups={}", p.groups.len()));
+        }
+        if p.rules.iter().any(|r| !r.neg.is_empty()) {
+            t.push("program_has_negation".into());
         }
         if !valid {
             t.push("invalid_config".into());
         }
         t
     };
-    let model = SeedModel { probs: probs.to_vec(), group: p.group.clone() };
+    let model = SeedModel { probs: probs.to_vec(), groups: p.groups.clone() };
     let certain: BTreeSet<Atom> = p.certain.iter().cloned().collect();
     let wp = world_probabilities(&p.rules, &certain, &p.seeds, &model);
     let strict = probs.iter().all(|x| *x == 0.0 || *x == 0.5 || *x == 1.0);
     let verdicts = |obs: &Result<E2eObs, String>| -> Vec<(&'static str, String, Vec<String>)> {
         let mut v = Vec::new();
+        if !valid {
+            return v; // outside the quantifier ("all valid configurations"): counted below, not judged
+        }
         match obs {
             Err(pmsg) => v.push(("panic", pmsg.clone(), vec![])),
             Ok(Err(_)) => {}
@@ -1301,6 +1607,14 @@ fn check_e2e_case(out: &mut ShardOut, p: &Prog, pi: usize, probs: &[f64], cfg: &
         Ok(Ok(results)) => {
             out.count("e2e_runs_ok", 1);
             out.count("e2e_fact_results", results.len() as u64);
+            if p.groups.len() >= 2 {
+                out.count("e2e_fact_results_two_exclusive_groups", results.len() as u64);
+            }
+            if p.rules.iter().any(|r| !r.neg.is_empty()) {
+                // facts whose every derivation goes through a rule with a negated atom: their lineage contains Not
+                let neg_heads: BTreeSet<&String> = p.rules.iter().filter(|r| !r.neg.is_empty()).flat_map(|r| r.head.iter().map(|h| &h.1)).collect();
+                out.count("e2e_fact_results_with_negated_lineage", results.iter().filter(|(a, _)| neg_heads.contains(&a.1)).count() as u64);
+            }
             for (atom, claim) in results {
                 out.outcome(&("e2e", claim.status, claim.decision as u8, claim.reason.as_str()));
                 out.count(&format!("e2e_{}_{}", claim.status, claim.reason), 1);
@@ -1319,6 +1633,9 @@ fn check_e2e_case(out: &mut ShardOut, p: &Prog, pi: usize, probs: &[f64], cfg: &
         }
         Ok(Err(e)) => {
             out.count("e2e_runs_err", 1);
+            if !valid {
+                out.count("e2e_invalid_config_rejected", 1);
+            }
             out.outcome(&("e2e", "err", e.split(':').next().unwrap_or("").to_string()));
         }
         Err(_) => {}
@@ -1348,7 +1665,7 @@ fn e2e_configs() -> Vec<HybridConfig> {
 
 fn run(ctx: &Ctx) -> ShardOut {
     let mut out = ShardOut::default();
-    let sets = ConfigSets::new();
+    let sets = ConfigSets::new(ctx.thorough());
     let mut tally = Tally { hit: 0, not_reached: 0, changed: 0 };
     let jobs = enumerate_jobs(ctx.thorough());
     let mut idx = 0u64;
@@ -1364,7 +1681,11 @@ fn run(ctx: &Ctx) -> ShardOut {
             if out.capped.is_empty() {
                 out.capped.push(format!("VCHECK_C08_SAMPLE={} set: only a subsample of the setups was run", n));
             }
-            if (idx / 16) % n.parse::<u64>().unwrap_or(1) != 0 {
+            // "n" or "n:phase": blocks of 16 consecutive setups, every n-th block starting at block `phase`
+            let mut parts = n.split(':');
+            let every = parts.next().and_then(|x| x.parse::<u64>().ok()).unwrap_or(1).max(1);
+            let phase = parts.next().and_then(|x| x.parse::<u64>().ok()).unwrap_or(0) % every;
+            if (idx / 16) % every != phase {
                 continue;
             }
         }
@@ -1382,6 +1703,10 @@ fn run(ctx: &Ctx) -> ShardOut {
                 Cfgs::Full => sets.full.len() + sets.invalid.len(),
                 Cfgs::Reduced => sets.reduced.len(),
                 Cfgs::Tiny => sets.tiny.len(),
+                Cfgs::Extra => sets.extra.len(),
+                Cfgs::TinyK => sets.tiny_k.len(),
+                Cfgs::Excl => sets.excl.len(),
+                Cfgs::OnlyK => sets.only_k.len(),
             };
             let mut sample = json!({"entry": "hybrid", "setup": job.setup.json(), "configs_run": nconfigs});
             // one concrete (config, fault index) of this setup, written out with what was observed
@@ -1466,7 +1791,7 @@ fn replay(_ctx: &Ctx, case: &Value) -> ShardOut {
                         eprintln!("recorded fault {:?}@{}: {} ({} readings); truth {:?}", mode, at, c.show(), reads, b.truth);
                     }
                     let valid = cfg.validate().is_ok();
-                    hybrid_all_faults(&mut out, &s, &b, &cfg, valid, &mut tally);
+                    hybrid_all_faults(&mut out, &s, &b, &cfg, valid, true, &mut tally);
                 }
                 "topk" => check_topk(&mut out, &s, &b),
                 _ => check_compile(&mut out, &s, &b),
